@@ -11,13 +11,13 @@ UNITS = {
     'rs_codec': {'template': 'units/rs_codec/unit.rs', 'serves': ['C11', 'C13'], 'min_verified': 34},
     'wire': {'template': 'units/wire/unit.rs', 'serves': ['C19', 'C10'], 'min_verified': 36},
     'pool': {'template': 'units/pool/unit.rs', 'serves': ['C04', 'C08', 'C18', 'C03', 'C10', 'C06'], 'min_verified': 125},
-    'blockdata': {'template': 'units/blockdata/unit.rs', 'serves': ['C13', 'C10', 'C12', 'C14'], 'min_verified': 63},
+    'blockdata': {'template': 'units/blockdata/unit.rs', 'serves': ['C13', 'C10', 'C12', 'C14'], 'min_verified': 66},
     'routing': {'template': 'units/routing/unit.rs', 'serves': ['C16'], 'min_verified': 65},
     'votor': {'template': 'units/votor/unit.rs', 'serves': ['C05', 'C18'], 'min_verified': 60},
     'parent_ready': {'template': 'units/parent_ready/unit.rs', 'serves': ['C07'], 'min_verified': 64},
     'repair': {'template': 'units/repair/unit.rs', 'serves': ['C14', 'C15', 'C10'], 'min_verified': 32},
     'producer': {'template': 'units/producer/unit.rs', 'serves': ['C10'], 'min_verified': 24},
-    'deshred': {'template': 'units/deshred/unit.rs', 'serves': ['C11', 'C13'], 'min_verified': 12},
+    'deshred': {'template': 'units/deshred/unit.rs', 'serves': ['C11', 'C13', 'C14'], 'min_verified': 25},
     'ingest': {'template': 'units/ingest/unit.rs', 'serves': ['C12', 'C13', 'C16', 'C14', 'C10'], 'min_verified': 21},
     'sampler': {'template': 'units/sampler/unit.rs', 'serves': ['C17', 'C16'], 'min_verified': 85},
     'engine': {'template': 'units/engine/unit.rs', 'serves': ['C20'], 'min_verified': 18},
